@@ -145,6 +145,43 @@ const TEMPLATES: &[(&str, Field)] = &[
     ("Mo[1] +{} day", Field::DayOffset),
     ("PH -{} days", Field::DayOffset),
     ("Jan 1 +{} days", Field::DayOffset),
+    // the same fields further down a list, in the second end of a range, after another selector
+    ("08:00-09:00,10:00-11:00,{}:00-23:00", Field::StartHour),
+    ("Mo 08:00-09:00; Tu {}:30-23:45", Field::StartHour),
+    ("10:00-11:00,12:{}-13:00", Field::Minute),
+    ("10:00-11:00,12:00-13:{} unknown", Field::Minute),
+    ("(sunrise+01:{})-20:00", Field::Minute),
+    ("10:00-12:00/00:{}", Field::Minute),
+    ("08:00-09:00,10:00-{}:00", Field::ExtHour),
+    ("Mo,We 20:00-{}:00 open \"x\"", Field::ExtHour),
+    ("Mo 08:00-09:00,10:00-48:{}", Field::MinuteAt48),
+    ("Jan 1,Feb {}", Field::Day),
+    ("Jan 1-3,Feb 5-{}", Field::Day),
+    ("2020 Jan 1-2021 Feb {}", Field::Day),
+    ("Mar {} +2 days", Field::Day),
+    ("Jan 1-Mar {}+Su", Field::Day),
+    ("week 1,{}", Field::Week),
+    ("week 1-2,5-{}", Field::Week),
+    ("week 1-2,{}-53/2 Mo", Field::Week),
+    ("Jan week {} Mo 10:00-12:00", Field::Week),
+    ("Mo[1],Tu[{}]", Field::Nth),
+    ("Mo[1-2,{}]", Field::Nth),
+    ("Mo[1,2-{}] +1 day", Field::Nth),
+    ("Mo[1,-{}]", Field::Nth),
+    ("Mo[{}-5]", Field::Nth),
+    ("2020,{}", Field::YearField),
+    ("2020-2021,{}-9999", Field::YearField),
+    ("2020-2021,2030-{}/2 Mo", Field::YearField),
+    ("2020 Jan 5-{} Feb 3", Field::YearField),
+    ("Jan 5,{} Feb 3", Field::YearField),
+    ("{} easter", Field::YearField),
+    ("{}Jan-Mar", Field::YearField),
+    ("week 1-53/2,2-52/{}", Field::WeekStep),
+    ("2020-2030/2,2040-2050/{}", Field::YearStep),
+    ("PH +{} day,SH", Field::DayOffset),
+    ("easter -{} days", Field::DayOffset),
+    ("Dec 25-easter +{} days", Field::DayOffset),
+    ("Jan 1-Feb 1 +{} day", Field::DayOffset),
 ];
 
 /// (text of the value, must it be accepted?)
@@ -266,7 +303,31 @@ fn negative(ch: &mut Choices, case: &mut Case) -> Result<(), String> {
                 }
                 accept = true;
             }
-            let text = template.replace("{}", &value);
+            let mut text = template.replace("{}", &value);
+            // half of the out-of-range values sit in the middle of a generated expression: the sentence is
+            // wrapped between generated rules, and must be rejected whenever its twin carrying an in-range
+            // value of the same field is accepted
+            if !accept && ch.chance(50) {
+                let cfg = Cfg { max_rules: 2, ..Cfg::default() };
+                let pre = if ch.chance(70) { format!("{}; ", gen_expr(ch, &cfg).1.trim()) } else { String::new() };
+                let post = if ch.chance(70) { format!("; {}", gen_expr(ch, &cfg).1.trim()) } else { String::new() };
+                let twin_value = (0..40).find_map(|_| {
+                    let (v, ok) = field_value(ch, field);
+                    (ok && v != "24").then_some(v)
+                });
+                let Some(twin_value) = twin_value else {
+                    case.exclude("not-asserted:no-valid-twin-drawn");
+                    return Ok(());
+                };
+                let twin = format!("{pre}{}{post}", template.replace("{}", &twin_value));
+                if !matches!(parse_guarded(&twin), Ok(Ok(_))) {
+                    case.exclude("not-asserted:context-rejects-the-valid-twin");
+                    case.key = twin;
+                    return Ok(());
+                }
+                text = format!("{pre}{text}{post}");
+                case.label("out_of_range_value_inside_a_generated_expression");
+            }
             case.key = format!("{text}  [{}]", if accept { "must parse" } else { "must be rejected" });
             case.nontrivial = !accept;
             case.label(if accept { "template_valid_value" } else { "template_invalid_value" });
@@ -317,12 +378,12 @@ pub fn property() -> Property {
             },
             SubCheck {
                 name: "negative",
-                rule: "40 sentence templates with one numeric field (start hour, minute, extended hour, 48:mm, day, week, nth, year, steps, day offset) filled with boundary values: in-range values must parse, out-of-range values must be rejected; plus the fixed lists of rejected forms (empty input, unbalanced/empty quotes, ...) and unsupported constructs (points in time, Easter followed by a bare day number); non-trivial = a case that must be rejected",
+                rule: "77 sentence templates with one numeric field (start hour, minute, extended hour, 48:mm, day, week, nth, year, steps, day offset; the field at the head of a sentence, further down a list, in the second end of a range, after other selectors) filled with boundary values: in-range values must parse, out-of-range values must be rejected; half of the out-of-range sentences are wrapped between generated rules and must be rejected whenever the twin carrying an in-range value is accepted; plus the fixed lists of rejected forms (empty input, unbalanced/empty quotes, ...) and unsupported constructs (points in time, Easter followed by a bare day number); non-trivial = a case that must be rejected",
                 f: negative,
                 text_f: None,
-                cases_quick: 8_000,
+                cases_quick: 40_000,
                 cases_thorough: 100_000,
-                max_choices: 24,
+                max_choices: 320,
             },
         ],
         extra: None,
